@@ -20,8 +20,8 @@
 (*   solution     Ok and det # 0 => x = A^-1 b: exactly when all           *)
 (*                intermediates are dyadic, else within the tolerance the  *)
 (*                harness applies to the rational carried by the scenario. *)
-(*   multipliers  all stored multipliers are bounded: magnitude <= 1 (real);*)
-(*                modulus <= sqrt 2 (complex: the pivot is the entry of    *)
+(*   multipliers  all stored multipliers are bounded: magnitude <= 1 (real) *)
+(*                or modulus <= sqrt 2 (complex: the pivot is the entry of *)
 (*                largest |re|+|im|, and |z| <= |z|_1 <= sqrt 2 |z|).      *)
 (*   pivot_max    the row exchanges are partial pivoting: at every stage   *)
 (*                the row the implementation reports as pivot row holds an *)
